@@ -156,6 +156,13 @@ impl Prop for C01 {
     fn cases(&self, tier: Tier) -> u64 {
         tier.pick(6_000, 150_000)
     }
+    fn fuzz_plan(&self, tier: Tier) -> Vec<(&'static str, u64)> {
+        if tier == Tier::Thorough {
+            vec![("prop", 60_000)]
+        } else {
+            vec![]
+        }
+    }
     fn choice_len(&self) -> usize {
         256
     }
